@@ -616,3 +616,29 @@ func instrDominates(a, b ssa.Instruction) bool {
 	}
 	return a.Block().Dominates(b.Block())
 }
+
+// nilCompare matches `x == nil` / `x != nil` (constant on either side) and
+// returns x and whether the operator is ==.
+func nilCompare(v ssa.Value) (x ssa.Value, isEq bool, ok bool) {
+	bo, isBO := v.(*ssa.BinOp)
+	if !isBO || (bo.Op != token.EQL && bo.Op != token.NEQ) {
+		return nil, false, false
+	}
+	switch {
+	case isNilConst(bo.Y):
+		return bo.X, bo.Op == token.EQL, true
+	case isNilConst(bo.X):
+		return bo.Y, bo.Op == token.EQL, true
+	}
+	return nil, false, false
+}
+
+// factIsNil reports whether a fact states "x == nil" (true) or "x != nil"
+// (false) about some value x.
+func factIsNil(f Fact) (x ssa.Value, isNil bool, ok bool) {
+	v, isEq, ok := nilCompare(f.Cond)
+	if !ok {
+		return nil, false, false
+	}
+	return v, isEq == f.Truth, true
+}
